@@ -18,6 +18,12 @@
     application projection (`appView`: packets per application transport, handler invocations,
     callbacks, API results; finally the rooms of `appState`) is compared with what the application side
     of the REAL instrumented server observed.  The content of the reports is not compared.
+(d) transparency at the HTTP level (`run_http`, oracle only): parts (b) and (c) talk to `engineio.socket.Socket`
+    objects, below engine.io's HTTP layer, which the instrumentation wraps too (`eio._ok`, `Socket.handle_post_request`,
+    `_send_ping`, the websocket handler).  `world_http` enters the real servers through `handle_request` (WSGI / ASGI,
+    no network): the same request script — XHR, JSONP and b64 polling clients, on the asyncio server also websocket
+    clients — is played on a plain server and on instrumented ones, and status, headers and body of every response to
+    an application client, the frames on its websocket, handler invocations, rooms and live sessions must be equal.
 """
 import copy
 import json
@@ -1504,11 +1510,48 @@ def http_app(hw, log, names):
             sio.on(ev, wrap(fn), namespace=ns)
 
 
-def gen_http_script(rng, n_ops):
+KNOWN_ZOMBIE = 'C18/disconnect-of-a-namespace-joined-on-a-closed-engineio-session'
+
+
+def _zombie_listed():
+    known, _fixed = C.known_findings()
+    return any(sig == KNOWN_ZOMBIE for sig, _t in known.get('C18', []))
+
+
+def _quiet_after_close(ops):
+    """A websocket client whose engine.io session the server has closed (the client's own engine.io CLOSE packet, or
+    an over-long POST to the polling endpoint of its session) closes its websocket and sends nothing more.  (engine.io
+    keeps reading a websocket after it has closed the session; a socket.io CONNECT arriving then creates a namespace
+    connection without `environ` whose connect handler never runs: see KNOWN_ZOMBIE in `run_http`.)"""
+    ws_mode, gone, out = set(), set(), []
+    for op in ops:
+        c = op.get('c')
+        if c in gone and op['op'] != 'api':
+            continue
+        out.append(op)
+        if op['op'] in ('ws_open', 'ws_upgrade'):
+            ws_mode.add(c)
+        elif c in ws_mode and ((op['op'] == 'post' and '1' in op['pk'])
+                               or (op['op'] == 'bad' and op['kind'] == 'too-long')):
+            out.append({'op': 'ws_close', 'c': c})
+            gone.add(c)
+        elif op['op'] == 'ws_close':
+            gone.add(c)
+    return out
+
+
+def gen_http_script(rng, n_ops, ws=False, zombie=False):
+    """`ws`: some clients use the websocket transport (directly, or by upgrading their polling session); `zombie`:
+    such clients may go on sending after the server has closed their engine.io session"""
     n_clients = rng.choice([2, 3, 3, 4])
     fl = [rng.choice(HTTP_FLAVOURS) for _ in range(n_clients)]
     if 'jsonp' not in fl and rng.random() < 0.8:
         fl[rng.randrange(n_clients)] = 'jsonp'
+    if ws:
+        for i in range(n_clients):
+            if rng.random() < 0.3:
+                fl[i] = 'ws'
+    upgraded = set()
     clients = [{'c': 'c%d' % i, 'fl': f, 'j': rng.choice([0, 0, 1, 7, 41])} for i, f in enumerate(fl)]
     ops = []
     opened = []
@@ -1568,7 +1611,7 @@ def gen_http_script(rng, n_ops):
         if (x < 0.3 or not opened) and len(opened) < n_clients:
             c = clients[len(opened)]['c']
             opened.append(c)
-            ops.append({'op': 'open', 'c': c, 'origin': rng.choice([None, None, None, 'same', 'same', 'other'])})
+            ops.append({'op': 'ws_open' if fl[len(opened) - 1] == 'ws' else 'open', 'c': c, 'origin': rng.choice([None] * 8 + ['same'] * 5 + ['other'])})
             if rng.random() < 0.85:
                 for ns in rng.choice([['/'], ['/chat'], ['/', '/chat'], ['/chat', '/']]):
                     auth = rng.choice([None, None, {'room': rng.choice(['r1', 'r2'])}, {'token': rng.choice(HTTP_STRINGS)}])
@@ -1578,6 +1621,13 @@ def gen_http_script(rng, n_ops):
                 ops.append({'op': 'poll', 'c': c, 'gzip': False, 'origin': None})
             continue
         c = rng.choice(opened)
+        if ws and rng.random() < 0.06 and c not in upgraded and fl[int(c[1:])] != 'ws':
+            upgraded.add(c)
+            ops.append({'op': 'ws_upgrade', 'c': c})
+            continue
+        if ws and rng.random() < 0.02 and (c in upgraded or fl[int(c[1:])] == 'ws'):
+            ops.append({'op': 'ws_close', 'c': c})
+            continue
         if x < 0.27:
             ns = rng.choice(HTTP_NSS)
             auth = rng.choice([None, None, {'room': rng.choice(['r1', 'r2'])}, {'token': rng.choice(HTTP_STRINGS)},
@@ -1627,7 +1677,28 @@ def gen_http_script(rng, n_ops):
             ops.append({'op': 'poll', 'c': c, 'gzip': False, 'origin': None, 'idle': True})
         else:
             ops.append({'op': 'post', 'c': c, 'pk': ['1']})           # engine.io CLOSE
-    return {'clients': clients, 'ops': ops}
+    server = {}
+    x = rng.random()
+    if x < 0.25:
+        server['cookie'] = 'io'
+    elif x < 0.4:
+        server['cookie'] = {'name': 'sess', 'path': '/x', 'SameSite': 'None', 'Secure': True}
+    x = rng.random()
+    if x < 0.15:
+        server['cors_allowed_origins'] = '*'
+    elif x < 0.3:
+        server['cors_allowed_origins'] = ['http://localhost', 'http://other.example']
+    elif x < 0.4:
+        server['cors_allowed_origins'] = []
+    if rng.random() < 0.3:
+        server['compression_threshold'] = 64
+    elif rng.random() < 0.15:
+        server['http_compression'] = False
+    if rng.random() < 0.15:
+        server['cors_credentials'] = False
+    if ws and not zombie:
+        ops = _quiet_after_close(ops)
+    return {'clients': clients, 'ops': ops, 'server': server}
 
 
 class _Ids:
@@ -1661,7 +1732,7 @@ def run_http_script(family, script, inst_spec=None, with_admin=False, decisions=
     server holds something for that client (an idle long poll is a time-out and closes the socket; the script has
     explicit idle polls for that) — the instrumented run makes exactly the requests the plain run made."""
     from .. import world_http as H
-    hw = H.HttpWorld(family)
+    hw = H.HttpWorld(family, **script.get('server', {}))
     ids = _Ids(hw)
     app = []
     parked = []
@@ -1682,7 +1753,7 @@ def run_http_script(family, script, inst_spec=None, with_admin=False, decisions=
                 text = body.decode('utf-8')
             except UnicodeDecodeError:
                 text = repr(body)
-            hdrs = [[k, v] for k, v in r['headers']]
+            hdrs = [[k, ids.text(v)] for k, v in r['headers']]
             cl = [v for k, v in r['headers'] if k.lower() == 'content-length']
             pk = H.decode(c.flavour if c else 'xhr', r['status'], body, j)
             out.append({'i': i, 'op': op, 'c': c.name if c else None, 'status': r['status'], 'headers': hdrs,
@@ -1698,6 +1769,21 @@ def run_http_script(family, script, inst_spec=None, with_admin=False, decisions=
                 h['HTTP_ACCEPT_ENCODING'] = 'deflate;q=0.5, gzip'
             return h
         pi = 0
+        wss = {}
+
+        def note_ws(i, op, c, frames, final=False):
+            fr = [[kind, ids.text(x) if isinstance(x, str) else x] for kind, x in frames]
+            out.append({'i': i, 'op': op, 'c': c.name, 'status': 'websocket frames', 'headers': [],
+                        'body': json.dumps(fr), 'final': final, 'content_length_ok': True, 'client_sees': fr})
+
+        def ws_frame(pk):
+            import base64
+            if pk[:1] == 'b':
+                try:
+                    return base64.b64decode(pk[1:])
+                except Exception:   # noqa
+                    return pk
+            return pk
         for i, op in enumerate(script['ops']):
             k = op['op']
             if k == 'admin':
@@ -1716,7 +1802,35 @@ def run_http_script(family, script, inst_spec=None, with_admin=False, decisions=
                     hw.ping(adm)
                 continue
             c = clients.get(op.get('c'))
-            if k == 'open':
+            if k == 'ws_open':
+                wss[c.name] = hw.websocket(c, headers=hdr(op))
+                note_ws(i, op, c, wss[c.name].take())
+            elif k == 'ws_upgrade':
+                if c.name in wss or c.sid is None:
+                    continue
+                w_ = wss[c.name] = hw.websocket(c, upgrade=True)
+                note_ws(i, op, c, w_.take())
+                w_.client_sends('2probe')
+                note_ws(i, op, c, w_.take())
+                note(i, op, c, hw.poll(c), c.j if c.flavour == 'jsonp' else None)
+                w_.client_sends('5')
+                note_ws(i, op, c, w_.take())
+            elif k == 'ws_close':
+                if c.name in wss:
+                    wss[c.name].client_closes()
+                    note_ws(i, op, c, wss[c.name].take())
+            elif k in ('post', 'poll') and c.name in wss:
+                if k == 'poll':
+                    if decisions is None:
+                        made.append(True)
+                    else:
+                        pi += 1
+                else:
+                    for pk in op['pk']:
+                        wss[c.name].client_sends(ws_frame(pk))
+                    hw.settle()
+                note_ws(i, op, c, wss[c.name].take())
+            elif k == 'open':
                 j = c.j if c.flavour == 'jsonp' else None
                 note(i, op, c, hw.handshake(c, headers=hdr(op)), j)
             elif k == 'post':
@@ -1733,7 +1847,12 @@ def run_http_script(family, script, inst_spec=None, with_admin=False, decisions=
                     j = c.j if c.flavour == 'jsonp' else None
                     note(i, op, c, hw.poll(c, headers=hdr(op, op.get('gzip'))), j)
             elif k == 'ping':
-                hw.ping(c)
+                r = hw.ping(c)
+                # (how the background task fared is not something a client observes — the PING it does or does not
+                # get is, in the responses that follow: kept for the replay, not compared)
+                out.append({'i': i, 'op': op, 'c': c.name, 'status': 'ping interval elapsed', 'detail': (
+                    'fired' if r is True else 'no ping loop waiting' if r is False else 'the task ended with %s' % r[1]),
+                    'headers': [], 'body': '', 'final': False, 'content_length_ok': True, 'client_sees': []})
             elif k == 'api':
                 ns = op['ns']
                 if op['call'] == 'emit':
@@ -1760,8 +1879,17 @@ def run_http_script(family, script, inst_spec=None, with_admin=False, decisions=
             elif k == 'bad':
                 note(i, op, c, bad_request(hw, c, op['kind']))
         # what is still held for the clients
+        for name in sorted(wss):
+            note_ws(len(script['ops']), {'op': 'poll', 'c': name, 'final': True}, clients[name], wss[name].take(), True)
+            # the websocket connections end here, one after the other (left to the tear-down of the world they would
+            # be cancelled in whatever order the event loop keeps its tasks)
+            wss[name].client_closes()
+            note_ws(len(script['ops']), {'op': 'ws_close', 'c': name, 'final': True}, clients[name],
+                    wss[name].take(), True)
         for name in sorted(clients):
             c = clients[name]
+            if name in wss:
+                continue
             for _ in range(4):
                 if not hw.queued(c):
                     break
@@ -1770,7 +1898,7 @@ def run_http_script(family, script, inst_spec=None, with_admin=False, decisions=
         rooms = sorted((ns, ids.name(r) if r is not None else '', ids.name(s))
                        for ns, rs in hw.sio.manager.rooms.items() if ns != ADMIN_NS
                        for r, mem in rs.items() for s in mem)
-        return {'resp': out, 'app': app, 'decisions': made, 'rooms': [list(x) for x in rooms],
+        return {'resp': out, 'app': list(app), 'decisions': made, 'rooms': [list(x) for x in rooms],
                 'sockets': sorted(name for name, c in clients.items() if c.sid in hw.eio.sockets)}
     finally:
         try:
@@ -1822,9 +1950,15 @@ def http_diff(script, plain, inst):
                        % (x['i'], x['c'], y['i'], y['c']))
             break
         fl = next((c['fl'] for c in script['clients'] if c['c'] == x['c']), '?')
-        who = 'op %d %s, client %s (%s polling)' % (x['i'], json.dumps(x['op']), x['c'], fl)
+        is_ws = 'websocket frames' in (x['status'], y['status'])
+        who = 'op %d %s, client %s (%s)' % (x['i'], json.dumps(x['op']), x['c'],
+                                            'websocket' if is_ws else fl + ' polling')
         for key, label in (('status', 'status line'), ('headers', 'headers'), ('body', 'body')):
             if x[key] != y[key]:
+                if is_ws and key == 'body':
+                    bad.append('%s: the frames the server sent on the websocket differ: instrumented %r, plain %r'
+                               % (who, y['client_sees'], x['client_sees']))
+                    break
                 bad.append('%s: %s of the HTTP response differs: instrumented %r, plain %r; the client makes of it: '
                            'instrumented %r, plain %r' % (who, label, y[key], x[key], y['client_sees'], x['client_sees']))
                 break
@@ -1860,9 +1994,12 @@ def run_http(ctx):
     n = ctx.scale(120, 1500)
     evals = nontriv = failures = 0
     sample = None
+    zombie_listed = _zombie_listed()
     for si in range(n):
         family = ('threading', 'asyncio')[si % 2]
-        script = gen_http_script(rng, rng.randint(25, 60))
+        # (the defect these scripts exposed was repaired in /repo; they are generated and judged like any other)
+        zombie = family == 'asyncio' and si % 8 == 5
+        script = gen_http_script(rng, rng.randint(25, 60), ws=family == 'asyncio' and si % 4 == 1, zombie=zombie)
         plain = run_http_script(family, script)
         kinds = http_nontrivial(script, plain)
         variants = [(HTTP_INST[(si // 2 + k) % 4], adm) for k, adm in ((0, False), (1, True), (2, True))]
@@ -1871,6 +2008,8 @@ def run_http(ctx):
             evals += len(inst['resp'])
             ctx.count('http.%s.%s.ro=%s.admin=%s' % (family, inst_spec['mode'], inst_spec['read_only'], with_admin))
             bad = http_diff(script, plain, inst)
+            if zombie:
+                ctx.count('http.script_with_traffic_on_a_closed_engineio_session')
             if bad:
                 failures += 1
                 small = shrink_http(family, script, inst_spec, with_admin)
@@ -1892,12 +2031,27 @@ def run_http(ctx):
                 ctx.count('http.response.compressed')
             if any(k.lower() == 'access-control-allow-origin' for k, _v in r['headers']):
                 ctx.count('http.response.cors')
+            if any(k.lower() == 'set-cookie' for k, _v in r['headers']):
+                ctx.count('http.response.set_cookie')
+            if r['status'] == 'websocket frames':
+                ctx.count('http.websocket.frames_from_the_server', len(r['client_sees']))
+                if r['op']['op'] in ('ws_open', 'ws_upgrade'):
+                    ctx.count('http.websocket.' + r['op']['op'])
         if len(kinds) >= 2 and 'jsonp' in kinds:
             nontriv += 1
         if sample is None and len(script['ops']) <= 30:
             sample = {'family': family, 'clients': script['clients'], 'ops': script['ops'][:12]}
         if failures >= 2:
             break
+    ctx.assumptions += [
+        'HTTP level (oracle only, no model): the servers are entered through Server.handle_request (WSGI) / '
+        'AsyncServer.handle_request (ASGI http and websocket scopes) in process; an idle long poll is a poll that timed '
+        'out (the queues of this world do not wait), the ping loop is parked and fired by the script, no time passes; '
+        'the plain server runs first and alone (instrument() patches engineio.socket.Socket for the whole process); '
+        'the threaded server\'s websocket transport (real socket, blocking threads) is not driven',
+        'HTTP level: a websocket client whose engine.io session the server has closed sends nothing more on that '
+        'websocket (an eighth of the asyncio scripts drop this restriction)',
+    ]
     ctx.coverage['http_level'] = {
         'scripts': si + 1, 'application_responses_compared': evals, 'scripts_with_jsonp_and_another_flavour': nontriv,
         'sample': sample,
@@ -1905,7 +2059,10 @@ def run_http(ctx):
                 'talking to the real Server.handle_request (WSGI) / AsyncServer.handle_request (ASGI) in process: '
                 'handshakes (with and without Origin), CONNECTs with auth / refused, events with and without ack ids, '
                 'several packets per POST, binary events and acks, server-side emits / callbacks / disconnects, ping and '
-                'pong, compressed polls, idle polls (time-out), engine.io CLOSE, malformed requests; played on a plain '
+                'pong, compressed polls, idle polls (time-out), engine.io CLOSE, malformed requests, server options '
+                '(cookie, CORS lists, compression threshold); on the asyncio server a quarter of the scripts also has '
+                'clients on the websocket transport (ASGI websocket scope: direct connections and upgrades of polling '
+                'sessions, text and binary frames, closed one by one at the end); played on a plain '
                 'server, then on instrumented ones (development / production, read_only, with and without an admin '
                 'connected over the same HTTP entry, polling and receiving the stats); every response to an '
                 'application client — status, headers, body, ids renamed — handler invocations, rooms and live '
@@ -1944,13 +2101,14 @@ def replay_http(case):
     print('%s server; instrument(auth=False, mode=%r, read_only=%r); admin client %s' % (
         case['family'], case['inst']['mode'], case['inst']['read_only'],
         'connected over the same HTTP entry' if case['with_admin'] else 'absent'))
+    print('server options: %s' % json.dumps(script.get('server', {})))
     print('clients: %s' % json.dumps(script['clients']))
     fl = {c['c']: c['fl'] for c in script['clients']}
     for n, r in enumerate(inst['resp']):
         p = plain['resp'][n] if n < len(plain['resp']) else None
         same = p is not None and all(p[k] == r[k] for k in ('status', 'headers', 'body'))
         print('--- op %s %s  [%s]' % (r['i'], json.dumps(r['op']), fl.get(r['c'])))
-        print('    instrumented: %s %r' % (r['status'], r['body'][:300]))
+        print('    instrumented: %s %r %s' % (r['status'], r['body'][:300], r.get('detail', '')))
         if not same:
             print('    plain       : %s' % ('%s %r' % (p['status'], p['body'][:300]) if p else '(no such request)'))
             print('    headers     : instrumented %r, plain %r' % (r['headers'], p['headers'] if p else None))
